@@ -121,6 +121,9 @@ def remove_cases(draw):
         "warm": draw(st.booleans()),
         # afterwards rename one of the remaining genes (to a new identifier, or onto another remaining gene)
         "rename": draw(st.one_of(st.none(), st.tuples(st.integers(0, 5), st.integers(0, 6)))),
+        # how each rule reaches its reaction (cycled over the reactions): as text, or as a rule object converted from the
+        # symbolic form / copied (since seeded change C08-8)
+        "routes": draw(st.one_of(st.just(["text"]), st.just(["text"]), st.lists(st.sampled_from(["text", "symbolic", "copy", "symbolic-copy"]), min_size=1, max_size=3))),
     }
 
 
@@ -282,7 +285,17 @@ def check_remove(case, ctx):
     for i, (tree, sp) in enumerate(zip(case["rules"], case["spellings"])):
         r = Reaction(f"R{i}")
         if tree is not None:
-            r.gene_reaction_rule = gprtree.render(tree, sp)
+            text = gprtree.render(tree, sp)
+            # the rule reaches the reaction as text or as a rule object that went through another representation first
+            route = (case.get("routes") or ["text"])[i % len(case.get("routes") or ["text"])]
+            if route == "text":
+                r.gene_reaction_rule = text
+            else:
+                from cobra.core.gene import GPR
+
+                g0 = GPR.from_string(text)
+                r.gpr = {"symbolic": lambda: GPR.from_symbolic(g0.as_symbolic()), "copy": g0.copy,
+                         "symbolic-copy": lambda: GPR.from_symbolic(g0.as_symbolic()).copy()}[route]()
         rx.append(r)
     m.add_reactions(rx)
     absent = set(case["remove"])
